@@ -58,6 +58,12 @@ def gen_case(r, kind):
         c["lower"], c["upper"] = c["ctr"] - c["P"] / 2, c["ctr"] + c["P"] / 2
         c["width"] = c["P"] / 16
         c["tol"] = c["P"] / r.choice([8.0, 16.0])
+        if r.random() < 0.4:
+            # reflecting boundaries inside the wrapping window (the premise wrap_ok of C17_reflect_inside)
+            c["rlo"] = c["rup"] = 1
+            c["lower"], c["upper"] = c["ctr"] - c["P"] / 4, c["ctr"] + c["P"] / 4
+            if r.random() < 0.5:
+                c["upper"] = c["ctr"] + c["P"] / 2 - c["P"] / 64
     # the imposed history of the variable
     span = c["upper"] - c["lower"] if kind != "periodic" else c["P"]
     lo = c["lower"] - (0.75 * span if kind in ("reflect", "mixed", "narrow") else 0.0)
@@ -318,7 +324,8 @@ def oracles(run, c, recs, scn, first_event=0, resumed=False):
             run.violation("output:unparsable", "unparsable output at engine step %d" % j, rep)
             return
         if not awake:
-            if rec["awake"] or rec["fz"] != 0.0 or rec["energy"] != 0.0 or (prev and (rec["x_rep"] != prev[0]["x_rep"] or rec["x_ext"] != prev[0]["x_ext"])):
+            if rec["awake"] or rec["fz"] != 0.0 or rec["f"] != 0.0 or rec["fr"] != 0.0 or rec["energy"] != 0.0 or \
+               (prev and (rec["x_rep"] != prev[0]["x_rep"] or rec["x_ext"] != prev[0]["x_ext"] or rec["v_ext"] != prev[0]["v_ext"])):
                 run.violation("mts:asleep-step-acts", "at engine step %d (absolute step %d, timeStepFactor %d) the sleeping variable changed or applied a force: %r"
                               % (j, it, c["tsf"], rec), rep)
                 return
@@ -671,7 +678,7 @@ def check(run):
         for f in sorted(os.listdir(cdir)):
             if f.startswith("C17_") and f.endswith(".json"):
                 cases.append(json.load(open(os.path.join(cdir, f))))
-    n = 330 if quick else 30000
+    n = 280 if quick else 30000
     for kk in range(n):
         c = gen_case(r, KINDS[kk % len(KINDS)] if kk < 4 * len(KINDS) else r.choice(KINDS))
         if r.random() < 0.5:
